@@ -145,7 +145,6 @@ class GPMultiFidelitySearcher(GPFIFOSearcher):
         super().__init__(
             config_space, metric, points_to_evaluate=points_to_evaluate, **kwargs
         )
-        self._resource_attr = None
 
     def _create_kwargs_int(self, kwargs):
         _kwargs = check_and_merge_defaults(
